@@ -316,7 +316,9 @@ def entanglement_fidelity(operation: cirq.SupportsKraus) -> float:
         Entanglement fidelity of the channel represented by operation.
     """
     f = 0.0
+    dimension = 1
     for k in protocols.kraus(operation):
         f += np.abs(np.trace(k)) ** 2
-    n_qubits = protocols.num_qubits(operation)
-    return float(f / 4**n_qubits)
+        dimension = k.shape[0]
+    # (dim H squared: 4**n for n qubits, the square of the product of the dimensions for qudits)
+    return float(f / dimension**2)
